@@ -188,6 +188,7 @@ def op_reopen(run):
         run.hashes[part] = histories.part_hash(part)
     run.id_dups, run.slide_ids, run.rel_maps, run.handles, run.shape_handles, run.ref_users = {}, {}, {}, [], [], {}
     run.slides_accessed = False
+    run.names_disturbed = False
     # ... and what the re-opened INPUT already lacked (references to relationships it does not hold) and how its parts were named
     from . import opcx
 
@@ -221,6 +222,10 @@ def op_core_prop(run):
 
 
 # ---------------------------------------------------------------------------- slide ops
+def _names_settled(run):
+    run.names_disturbed = False
+
+
 def op_add_slide(run):
     prs = run.prs
     masters = list(prs.slide_masters)
@@ -231,10 +236,35 @@ def op_add_slide(run):
     lay = run.rnd.choice(layouts)
     s = prs.slides.add_slide(lay)
     run.slides_accessed = True
+    _names_settled(run)
     run.acc.hit("Slides.add_slide")
     if run.rnd.random() < 0.5:
         run.handles.append((s.slide_id, s.part))
     return lay.name
+
+
+def op_delete_slide(run):
+    """The recipe every user of python-pptx finds (there is no public delete): the slide's p:sldId is removed from the kept
+    `prs.slides` collection and its relationship dropped; the Slides object lives on and slides are added to it later."""
+    prs = run.prs
+    slides = prs.slides
+    run.slides_accessed = True
+    if len(slides) < 2:
+        raise Rejected()
+    k = run.rnd.randrange(len(slides))
+    sldId = slides._sldIdLst.sldId_lst[k]
+    victim = slides[k]
+    if any(getattr(sh, "click_action", None) is not None for sh in ()):
+        pass
+    prs.part.drop_rel(sldId.rId)
+    slides._sldIdLst.remove(sldId)
+    # the harness forgets what it held about the deleted slide (handles, shape handles)
+    run.handles = [(sid, part) for sid, part in getattr(run, "handles", []) if part is not victim.part]
+    run.shape_handles = [h for h in getattr(run, "shape_handles", []) if h[0] is not victim.part]
+    run.slide_ids = {p_: v for p_, v in getattr(run, "slide_ids", {}).items() if p_ is not victim.part}
+    run.names_disturbed = True
+    run.acc.count("slides_deleted_by_the_recipe")
+    return "slide %d of %d" % (k + 1, len(slides) + 1)
 
 
 def op_slide_index_bad(run):
@@ -1193,6 +1223,7 @@ ALL_OPS = {
     "core_prop": (op_core_prop, (VE,)),
     "add_slide": (op_add_slide, NONE),
     "slide_index_bad": (op_slide_index_bad, (IE,)),
+    "delete_slide": (op_delete_slide, NONE),
     "slides_get": (op_slides_get, NONE),
     "read_slides": (op_read_slides, NONE),
     "remove_layout": (op_remove_layout, (VE,)),
@@ -1236,7 +1267,7 @@ ALL_OPS = {
 PROFILES = {
     # C02: relationship-creating and -dropping ops, saves everywhere
     "pkg": {
-        "save_stream": 10, "save_path": 2, "save_same_stream": 4, "save_same_path": 2, "reopen": 4, "core_prop": 2, "add_slide": 8, "slide_index_bad": 1, "slides_get": 2, "read_slides": 4,
+        "save_stream": 10, "save_path": 2, "save_same_stream": 4, "save_same_path": 2, "reopen": 4, "core_prop": 2, "add_slide": 8, "delete_slide": 3, "slide_index_bad": 1, "slides_get": 2, "read_slides": 4,
         "remove_layout": 3, "drop_layout_readd": 4, "add_shape": 3, "add_textbox": 3, "add_picture": 8, "add_picture_notimage": 1, "add_connector": 1, "add_group": 2,
         "add_chart": 6, "add_table": 2, "add_movie": 4, "add_ole": 4, "ph_insert": 4, "run_hyperlink": 8, "click_action": 8, "chart_replace": 5,
         "notes": 8, "text_assign": 2, "traverse": 2, "add_freeform": 1, "table": 1, "hyperlink_share": 6, "hyperlink_cycle": 5,
@@ -1250,7 +1281,7 @@ PROFILES = {
     },
     # C06: additions only
     "ids": {
-        "add_slide": 10, "add_shape": 8, "add_textbox": 5, "add_picture": 6, "add_connector": 4, "add_group": 8, "add_freeform": 6, "add_chart": 4,
+        "add_slide": 10, "delete_slide": 2, "add_shape": 8, "add_textbox": 5, "add_picture": 6, "add_connector": 4, "add_group": 8, "add_freeform": 6, "add_chart": 4,
         "add_table": 3, "add_movie": 3, "add_ole": 2, "turbo": 4, "notes": 3, "run_hyperlink": 3, "click_action": 3, "slides_get": 3,
         "read_slides": 2, "save_stream": 4, "ph_insert": 2, "hyperlink_share": 4, "hyperlink_cycle": 5, "connect": 3,
     },
